@@ -609,7 +609,8 @@ def correspond(ctx):
     from harness.props import c06_round2 as r2
     me = sys.modules[__name__]
     r2.corr_as_int(ctx, me)
-    sessions = r2.fixed_sessions(rng) + [sanitize(gen_session(rng)) for _ in range(nsess)]
+    from harness.props import c06_round3 as r3
+    sessions = r2.fixed_sessions(rng) + r3.fixed_sessions(rng) + [sanitize(gen_session(rng)) for _ in range(nsess)]
     all_lines = []; per = []
     for c in sessions:
         try:
@@ -737,7 +738,11 @@ def o_ratio_as_int(a):
 def build(a, via=None):
     """ construct and initialise a real TimePar from oracle arguments """
     import starsim as ss
-    x = getattr(ss, a['kind'])(pyval_dtype(a['v'], a.get('dtype')), unit=a['unit'], self_dt=a.get('sdt', 1.0))
+    pre = a.get('pre')   # [how, unit, dt]: the parameter already has ANOTHER parent (given to the constructor / linked before) when it is linked
+    ctor = dict(parent_unit=pre[1], parent_dt=pre[2]) if pre and pre[0] == 'ctor' else {}
+    x = getattr(ss, a['kind'])(pyval_dtype(a['v'], a.get('dtype')), unit=a['unit'], self_dt=a.get('sdt', 1.0), **ctor)
+    if pre and pre[0] == 'init': x.init(parent_unit=pre[1], parent_dt=pre[2])
+    elif pre and pre[0] == 'initp': x.init(parent=make_parent('dict', pre[1], pre[2]))
     via = via or a.get('via', 'kw')
     if via == 'kw':
         x.init(parent_unit=a['punit'], parent_dt=a['pdt'])
@@ -988,7 +993,7 @@ def _r3(name):
     return f
 
 
-ORACLES.update({k: _r3(k) for k in ('history', 'rateprob_mono')})
+ORACLES.update({k: _r3(k) for k in ('history', 'rateprob_mono', 'module_relink')})
 
 
 def run_oracle(ctx, name, args):
